@@ -348,12 +348,15 @@ def attach_m4(mon=MON, keep_log=True):
         except Exception:
             g = None
         exc = None
+        mon.search_depth = 0
         try:
             r = orig(graph)
         except BaseException as e:
             exc = e
             r = None
         mon.counts["M4.calls"] += 1
+        if getattr(mon, "search_depth", 0) >= 2:
+            mon.counts["M4.calls_with_several_searches"] += 1
         if g is not None:
             try:
                 if exc is not None:
@@ -589,6 +592,7 @@ def attach_m4b(mon=MON):
     def fap(*a, **k):
         with lock:
             mon.counts["M4b.augmenting_path_searches"] += 1
+            mon.search_depth = getattr(mon, "search_depth", 0) + 1
         return orig(*a, **k)
     fap.__wrapped__ = orig
     mu._find_augmenting_path = fap
